@@ -23,8 +23,8 @@ import MagpyVerif.Model.StyleNested
 namespace MagpyVerif.StyleState
 open MagpyVerif.StyleNested
 
-/-- exception classes; `shadow` is NOT an exception: the assigned name is an attribute of the object that is not a
-property (`update`, `copy`, `_color`, …) — CPython stores an instance attribute; the model stops making claims there -/
+/-- exception classes; `shadow` is NOT an exception: the assigned name is a non-callable attribute of the object that is
+not a property (`_color`, `__doc__`, …) — CPython stores an instance attribute; the model stops making claims there -/
 inductive Kind where
   | assertion | attribute | value | type | other | shadow | fuel
   deriving DecidableEq, Repr
@@ -150,19 +150,17 @@ def construct (T : Tables) (ps : List (Key × Schema)) (ctor : List (Key × Opti
   | .error e => .error e
   | .ok g => constructProps T ps g ps []
 
-/-- does the name start with an underscore (private slots `_color`, dunders: `hasattr` is true for many of them) -/
-def underscored : Str → Bool
-  | '_' :: _ => true
-  | _ => false
-
-/-- `setattr(self, k, val)` on a frozen object: a property runs its setter; any other existing attribute is simply
-overwritten (`shadow`); everything else is an AttributeError -/
+/-- `setattr(self, k, val)` on a frozen object (`MagicProperties.__setattr__` after repo fix 3fc7703: AttributeError when
+`not hasattr(self, key) or callable(getattr(type(self), key, None))`): a property runs its setter; a name in `others`
+— the regenerated list of non-property names the code does not reject: the private slots `_color`, …, `__doc__`,
+`__module__`, the frozen flag — is overwritten as a plain attribute (`shadow`, no claim about the state afterwards);
+every other name, in particular every method name and every unknown name with or without underscore, is an AttributeError -/
 def setAttr (T : Tables) (props : List (Key × Schema)) (others : List Str) (cur : Dict) (k : Key) (val : Tree) : Except Kind Dict :=
   match lookup k props with
   | some s => setProp T props cur k s val
   | none =>
     match k with
-    | .str n => if underscored n || others.contains n then .error .shadow else .error .attribute
+    | .str n => if others.contains n then .error .shadow else .error .attribute
     | .int _ => .error .type
 
 /-- `for k, v in new_dict.items(): setattr(self, k, v)`: the state reached and the first exception -/
